@@ -732,6 +732,13 @@ def r8(ctx, facts, pred):
         r.instance("no-from_fn-streams", True, "no iter::from_fn stream over wire data in the decode set", None, nontrivial=False)
 
 
+def r11_guard(ctx):
+    """the reviewed table accepts the `type check should have prevented this` panics of derive-generated deserializers because the generated
+    type_check refuses what they assert against; for duplicated field names that guard is re-checked here on the derive family (rule shared with C16)"""
+    from .c16 import r11 as c16_r11
+    c16_r11(ctx, ctx.facts("family"))
+
+
 def inline_view_(facts):
     from ..inline import inline_view
     return inline_view(facts)
@@ -799,7 +806,7 @@ def check(ctx):
     for p, n in per.items():
         anc.instance("entry:" + p, n > 0, "%d bodies match" % n, nontrivial=False)
     ctx.extra["decode_reachable_bodies"] = len(pred)
-    for fn in (lambda: r1(ctx, facts, cg, pred), lambda: r2(ctx, facts), lambda: r3(ctx, facts, cg, pred), lambda: r4(ctx, facts, cg, pred), lambda: r5(ctx, facts), lambda: r6(ctx, facts), lambda: r7(ctx, inline_view_(facts)), lambda: r8(ctx, facts, pred)):
+    for fn in (lambda: r1(ctx, facts, cg, pred), lambda: r2(ctx, facts), lambda: r3(ctx, facts, cg, pred), lambda: r4(ctx, facts, cg, pred), lambda: r5(ctx, facts), lambda: r6(ctx, facts), lambda: r7(ctx, inline_view_(facts)), lambda: r8(ctx, facts, pred), lambda: r11_guard(ctx)):
         try:
             fn()
         except AnchorLost as ex:
